@@ -1,3 +1,4 @@
+import Fpdec.Kernels.IntOps
 import Fpdec.Kernels.DecOps
 import Fpdec.Kernels.DecMul
 import Fpdec.Kernels.WideFits
@@ -253,5 +254,15 @@ theorem kernel_decimal_checked_mul (prof : Profile) (x y : Dec) : Gen.K.decimal_
   Kernels.decimal_checked_mul_eq prof x y
 theorem kernel_decimal_mul_rounded (prof : Profile) (tm : Mode) (x y : Dec) (n : Nat) (hn : n < 256) :
     Gen.K.decimal_mul_rounded prof tm x y n = mulRounded prof tm x y n := Kernels.decimal_mul_rounded_eq prof tm x y n hn
+
+/-- the integer forms of `*` and `checked_mul` (both operand orders), as translated on this run -/
+theorem kernel_decimal_mul_int (prof : Profile) (d : Dec) (i : Int) : Gen.K.decimal_mul_int prof d i = mulInt d i :=
+  Kernels.decimal_mul_int_eq prof d i
+theorem kernel_int_mul_decimal (prof : Profile) (i : Int) (d : Dec) : Gen.K.int_mul_decimal prof i d = mulInt d i :=
+  Kernels.int_mul_decimal_eq prof i d
+theorem kernel_decimal_checked_mul_int (prof : Profile) (d : Dec) (i : Int) :
+    Gen.K.decimal_checked_mul_int prof d i = .ok (checkedMulInt d i) := Kernels.decimal_checked_mul_int_eq prof d i
+theorem kernel_int_checked_mul_decimal (prof : Profile) (i : Int) (d : Dec) :
+    Gen.K.int_checked_mul_decimal prof i d = .ok (checkedMulInt d i) := Kernels.int_checked_mul_decimal_eq prof i d
 
 end Fpdec.Props.C02
